@@ -12,9 +12,11 @@ completely.  Inputs:
     removed from string positions; strings blown up to 253 / 1025 / 65534 / 65535 / 65536 bytes or
     prefixed with 0xff bytes; inline marker turned into a reference; dataset type / length damaged,
   * corpus/C03/o5m*.ops (regression seeds).
+  * corpus/C03/o5m*.ops: regression probes `<hex> <stable key> <expected outcome>` — the inputs of
+    the five repaired findings; a different outcome / crash raises VIOLATION with the stable key.
 For every input: the outcome (objects or error kind) of both builds must equal the model's; a
-sanitizer report, abort, crash or timeout is a violation with the input as replay; inputs on which
-the model meets undefined behaviour (`ub:*`) are violations as well (the model names the cause).
+sanitizer report, abort, crash or timeout is a violation with the input as replay (the theorem
+o5m_hostile_safe says the model itself never yields oob/ub; should it, that is a violation too).
 """
 import concurrent.futures
 import os
@@ -242,6 +244,7 @@ def run_part(ctx):
         specs.append((seed0 + k, prof, (1 + rng.below(2)) if prof == 4 else (2 + rng.below(6)), 1))
     files = base.gen_files(ctx, specs)
     inputs = []     # (label, bytes)
+    probes = {}     # bytes -> (stable key, expected outcome)
     corpus_dir = os.path.join(vlib.ROOT, 'corpus', 'C03')
     if os.path.isdir(corpus_dir):
         for fn in sorted(os.listdir(corpus_dir)):
@@ -250,7 +253,11 @@ def run_part(ctx):
                     for l in fh:
                         l = l.strip()
                         if l and not l.startswith('#'):
-                            inputs.append(('corpus:' + fn, bytes.fromhex(l.split()[0]) if l.split()[0] != '-' else b''))
+                            w = l.split(' ', 2)
+                            d = bytes.fromhex(w[0]) if w[0] != '-' else b''
+                            inputs.append(('corpus:' + fn, d))
+                            if len(w) == 3:
+                                probes[d] = (w[1], w[2])
     budget = 420 if quick else 1500
     for f in files:
         data = bytes.fromhex(f['hex'])
@@ -304,7 +311,10 @@ def run_part(ctx):
                 ctx.count('o5m-hostile-crash:' + sig)
                 replay['stderr'] = crash['stderr'][-3000:]
                 replay['rc'] = crash['rc']
-                if mod.startswith('ub:'):
+                if d in probes:
+                    key = probes[d][0]
+                    what = 'regression probe %s: real Reader (%s) died with %s (expected `%s`)' % (key, bname, sig, probes[d][1])
+                elif mod.startswith('ub:'):
                     key = 'o5m-' + mod[3:]
                     what = 'model: %s; real Reader (%s): %s on a %d-byte o5m input (mutation %s)' % (mod, bname, sig, len(d), lab)
                 else:
@@ -314,9 +324,13 @@ def run_part(ctx):
                 continue
             if out is None:
                 continue   # lost behind a crash (cannot happen: run_harness restarts after the crashing line)
-            if mod.startswith('ub:'):
-                # the model says this input makes the code run into undefined behaviour; the run shows how it came out this time
-                ctx.violation('o5m-' + mod[3:],
+            if d in probes and out != probes[d][1]:
+                ctx.violation(probes[d][0], 'regression probe %s: real Reader (%s) gives `%s`, expected `%s` — the old behaviour is back'
+                              % (probes[d][0], bname, out[:160], probes[d][1][:160]), dict(replay, impl=out[:2000], expected=probes[d][1]))
+                continue
+            if mod.startswith('ub:') or mod == 'oob':
+                # cannot happen (theorem o5m_hostile_safe); kept as a monitor on the model itself
+                ctx.violation('o5m-' + mod.replace('ub:', ''),
                               'model: %s — the decoder leaves defined behaviour on this %d-byte input (mutation %s); real Reader (%s) this time: `%s`'
                               % (mod, len(d), lab, bname, out[:120]), dict(replay, impl=out[:2000]))
                 continue
